@@ -284,28 +284,39 @@ def api_cases(full: bool):
                         fn = BIN.get(opname) or getattr(pt, opname)
                         return (fn(sc, a) if rev else fn(a, sc)), {"a": av}
                     yield f"{opname}:scalar,{d1},{type(sc).__name__},{rev}", mk2
+    # (unit-length axes too: an axis of length 1 that is not being broadcast
+    # is subscripted like any other)
+    ushapes = [(2, 3), (3, 1), (1, 4), (1,), (1, 1, 1)]
     for d in dts:
-        def mkn(d=d):
-            a, av = _arr("a", d, (2, 3))
-            return pt.logical_not(a), {"a": av}
-        yield f"logical_not:{d}", mkn
+        for sh in ushapes:
+            def mkn(d=d, sh=sh):
+                a, av = _arr("a", d, sh)
+                return pt.logical_not(a), {"a": av}
+            yield f"logical_not:{d},{sh}", mkn
 
-        def mkneg(d=d):
-            a, av = _arr("a", d, (2, 3))
-            return -a, {"a": av}
-        yield f"neg:{d}", mkneg
+            def mkneg(d=d, sh=sh):
+                a, av = _arr("a", d, sh)
+                return -a, {"a": av}
+            yield f"neg:{d},{sh}", mkneg
+
+            def mkz(d=d, sh=sh):
+                a, av = _arr("a", d, sh)
+                return pt.zeros_like(a), {"a": av}
+            yield f"zeros_like:{d},{sh}", mkz
     for fn in MATH1:
         for d in ("float32", "float64", "complex128"):
-            def mkm(fn=fn, d=d):
-                a, av = _arr("a", d, (2, 3))
-                return getattr(pt, fn)(a), {"a": av}
-            yield f"{fn}:{d}", mkm
+            for sh in ushapes:
+                def mkm(fn=fn, d=d, sh=sh):
+                    a, av = _arr("a", d, sh)
+                    return getattr(pt, fn)(a), {"a": av}
+                yield f"{fn}:{d},{sh}", mkm
     for d in ("float32", "float64"):
-        def mka2(d=d):
-            a, av = _arr("a", d, (2, 3))
-            b, bv = _arr("b", d, (2, 3))
-            return pt.arctan2(a, b), {"a": av, "b": bv}
-        yield f"arctan2:{d}", mka2
+        for sh in ushapes:
+            def mka2(d=d, sh=sh):
+                a, av = _arr("a", d, sh)
+                b, bv = _arr("b", d, sh)
+                return pt.arctan2(a, b), {"a": av, "b": bv}
+            yield f"arctan2:{d},{sh}", mka2
     for dc, dx, dy in itertools.product(("bool", "int32", "float64"), dts, dts):
         for kind in ("aaa", "asa", "aas", "ass", "bcast"):
             def mkw(dc=dc, dx=dx, dy=dy, kind=kind):
@@ -591,11 +602,39 @@ def run_shard(shard: int, nshards: int, seed: int, tier: str) -> ShardResult:
             res.fail(f, {"hand": desc})
 
     hyp_run(near_miss(), body, seed, pl["examples"])
-    for k, desc in enumerate(permuted_reductions()):
+    for k, desc in enumerate(itertools.chain(permuted_reductions(),
+                                             negated_term_sums())):
         if k % nshards == shard:
-            res.count("enumerated_permuted_reductions")
+            res.count("enumerated_hand_built")
             body(desc)
     return res
+
+
+def negated_term_sums():
+    """flat sums of two to four terms in which one term is (-1) * y or
+    y * (-1), at every position: 'x + (-1)*y' is a subtraction only when
+    nothing else is added"""
+    b = [{"name": nm, "shape": [2, 3], "dtype": "float64"}
+         for nm in ("x", "y", "z", "w")]
+
+    def ref(nm):
+        return ["sub", nm, [["v", 0], ["v", 1]]]
+    for nterms in (2, 3, 4):
+        for pos in range(nterms):
+            for neg_first in (True, False):
+                for const_tail in (False, True):
+                    terms = []
+                    for k in range(nterms):
+                        t = ref("xyzw"[k])
+                        if k == pos:
+                            t = ["prod", [["const", -1], t] if neg_first
+                                 else [t, ["const", -1]]]
+                        terms.append(t)
+                    if const_tail:
+                        terms[-1] = ["const", 2.5] if pos != nterms - 1 \
+                            else terms[-1]
+                    yield {"shape": [2, 3], "dtype": "float64",
+                           "bindings": b[:nterms], "expr": ["sum", terms]}
 
 
 def permuted_reductions():
